@@ -137,7 +137,8 @@ def cfg_token(deb):
         b01(deb.impute_missing_values), b01(deb.detrending_with_significance_test),
         b01(deb.trend_transfer_only_for_values_within_threshold), b01(deb.bias_correct_frequencies_of_values_beyond_thresholds),
         b01(deb.event_likelihood_adjustment), b01(deb.ks_test_for_goodness_of_cdf_fit),
-        deb.ecdf_method, deb.iecdf_method, deb.mode_non_parametric_qm, b01(rice)])
+        deb.ecdf_method, deb.iecdf_method, deb.mode_non_parametric_qm, b01(rice),
+        b01(deb.scale_by_annual_cycle_of_upper_bounds), str(int(deb.window_length_annual_cycle_of_upper_bounds))])
 
 
 def rl(x):
@@ -465,7 +466,7 @@ def impute_keys(x):
     if inv.any() and valid.size >= 2:
         f = scipy.interpolate.interp1d(np.where(~inv)[0], np.argsort(np.argsort(valid)), fill_value="extrapolate")
         for i, v in zip(np.where(inv)[0], f(np.where(inv)[0])):
-            keys[i] = ("i", float(v))
+            keys[i] = ("i", round(float(v), 7))  # equal in exact arithmetic may differ by an ulp in floats
     elif inv.any():
         for i in np.where(inv)[0]:
             keys[i] = ("i", 0.0)
@@ -694,4 +695,111 @@ def correspondence(rng, n_cases, tier, res, configs=None):
     for (n, st), v in per_cfg.items():
         pc.setdefault(n, {}).setdefault(st, 0)
         pc[n][st] += v
+    return mismatches
+
+
+# ------------------------------------------------------------------ step 1 / step 8 (outside the window loop)
+def _dates(rng):
+    import datetime
+
+    kind = rng.choice(["years", "years", "leapyear", "subannual", "strided"])
+    y0 = rng.randint(1960, 2090)
+    if kind == "leapyear":
+        y0 -= y0 % 4
+        if y0 % 100 == 0 and y0 % 400 != 0:
+            y0 += 4
+    start = datetime.date(y0, 1, 1) + datetime.timedelta(days=rng.choice([0, 0, rng.randint(1, 364)]))
+    n = {"years": rng.choice([365, 366, 730, 800]), "leapyear": rng.choice([366, 731]), "subannual": rng.randint(5, 300),
+         "strided": rng.randint(200, 1100)}[kind]
+    dates = [start + datetime.timedelta(days=k) for k in range(n)]
+    if kind == "strided":
+        dates = dates[:: rng.randint(2, 9)]
+    return np.array(dates, dtype=object)
+
+
+def correspondence_aux(rng, n_cases, tier, res):
+    """`step1` / `step8` of the real code (annual cycle of upper bounds; rsds like) against the driver ops `step1`, `step8`"""
+    from ibicus.debias import ISIMIP
+    from ibicus.utils import day_of_year
+
+    exps = []
+    for k in range(n_cases):
+        w = rng.choice([31, 31, 1, 2, 3, 4, 5, 15, 60, 365, 400])
+        with warnings.catch_warnings():
+            warnings.simplefilter("ignore")
+            deb = ISIMIP(distribution=isimip_family.IsiRatSigmoid(), trend_preservation_method="bounded", nonparametric_qm=True,
+                         detrending=False, scale_by_annual_cycle_of_upper_bounds=bool(k % 10), window_length_annual_cycle_of_upper_bounds=w,
+                         lower_bound=0.0, lower_threshold=1 / 64, upper_bound=1.0, upper_threshold=1 - 1 / 64)
+        same = rng.random() < 0.5
+        tF = _dates(rng)
+        tO, tH = (tF, tF) if same else (_dates(rng), _dates(rng))
+        series = []
+        for t in (tO, tH, tF):
+            amp = rng.randint(100, 20000)
+            zero_from = rng.choice([None, None, rng.randint(1, 366)])
+            vals = []
+            for d in t:
+                doy = d.timetuple().tm_yday
+                season = 1 + np.cos(2 * np.pi * (doy - 172) / 365.25)
+                v = int(amp * (0.1 + 0.45 * season) * (0.3 + 0.7 * rng.random()))
+                if zero_from is not None and (doy - zero_from) % 366 < w + 3:
+                    v = 0  # a stretch of the year where every value is zero: the cycle is 0 there (scaling 1)
+                vals.append(v)
+            series.append(np.array(vals, dtype=float) / 64)
+        obs, H, F = series
+        with warnings.catch_warnings():
+            warnings.simplefilter("ignore")
+            dO, dH, dF = (np.asarray(day_of_year(t), dtype=int) for t in (tO, tH, tF))
+        tok = cfg_token(deb)
+        case = {"config": "step1/8", "k": k, "w": w, "sizes": [int(x.size) for x in series], "same_dates": bool(same)}
+        with Spy():
+            try:
+                o1, h1, f1, cyc = deb.step1(obs.copy(), H.copy(), F.copy(), tO, tH, tF)
+                exc = None
+            except Exception as ex:  # noqa: BLE001
+                exc = type(ex).__name__
+        if exc is not None:
+            exps.append(Expect("step1", f"step1 {tok} {rl(obs)} {rl(H)} {rl(F)} {C.ilist(dO)} {C.ilist(dH)} {C.ilist(dF)}", case, exc=exc, outs=None))
+            continue
+        exps.append(Expect("step1", f"step1 {tok} {rl(obs)} {rl(H)} {rl(F)} {C.ilist(dO)} {C.ilist(dH)} {C.ilist(dF)}", case, exc=None,
+                           outs=[o1, h1, f1, cyc], inputs=(obs, H, F)))
+        x = np.array([rng.randint(0, 1024) for _ in range(F.size)], dtype=float) / 1024
+        with Spy():
+            r8 = deb.step8(x.copy(), cyc, tF)
+        exps.append(Expect("step8", f"step8 {tok} {rl(x)} {'none' if cyc is None else rl(cyc)} {C.ilist(dF)}", case, exc=None,
+                           outs=[r8], inputs=(x, [] if cyc is None else cyc)))
+        res.count(("step1/8", w, same, int(np.unique(dF).size)), True, sample=case if k < 2 else None)
+        hist0 = res.extra.setdefault("branch_hist", {})
+        eq = np.array_equal(np.unique(dH), np.unique(dF)) and np.array_equal(np.unique(dO), np.unique(dF))
+        for key in (f"step1:{'equal_days' if eq else 'differing_days'}", f"step1:{'all366' if np.unique(dF).size == 366 else 'lookup'}"):
+            hist0[key] = hist0.get(key, 0) + 1
+    try:
+        out = C.run_driver("DrvIsimip", [e.line for e in exps])
+    except C.DriverError as ex:
+        return [{"op": "driver", "case": {}, "detail": str(ex)[:600]}]
+    mismatches = []
+    hist = res.extra.setdefault("branch_hist", {})
+    for e, got in zip(exps, out):
+        res.cov["traces_validated_against_impl"] += 1
+        toks = got.split(" ")
+        ok, detail = True, ""
+        if e.exc is not None or toks[0] != "ok":
+            ok = toks[0] == "error" and e.exc == toks[1]
+            detail = f"{e.op}: impl {e.exc} model {got[:80]}"
+        else:
+            sc = scale_of(*e.inputs, *[o for o in e.outs if o is not None])
+            for j, r in enumerate(e.outs):
+                if r is None:
+                    ok, detail = toks[1 + j] == "none", f"{e.op}: cycle impl None model {toks[1 + j][:40]}"
+                elif toks[1 + j] == "none":
+                    ok, detail = False, f"{e.op}: output {j} model none"
+                else:
+                    m = parse_rl(toks[1 + j])
+                    ok, detail = close(m, [float(v) for v in r], sc), f"{e.op} output {j}: {worst(m, [float(v) for v in r])}"
+                if not ok:
+                    break
+        key = f"{e.op}:{'ok' if ok else 'mismatch'}"
+        hist[key] = hist.get(key, 0) + 1
+        if not ok:
+            mismatches.append({"op": e.op, "case": e.case, "detail": detail[:500], "line": e.line})
     return mismatches
